@@ -378,6 +378,9 @@ let polyp_case_line (line : string) =
            let e = List.for_all2 (fun x y -> Z.equal (zz_of_cz x) (zz_of_cz y)) a b in
            let s = Printf.sprintf " eq=%d,ne=%d" (if e then 1 else 0) (if e then 0 else 1) in
            Buffer.add_string mb s; Buffer.add_string sb s
+       | [ ("setbad" | "nubad"); h ] -> apply (M.Write (nat h, fun old -> old))       (* detach happens, then the call throws *)
+       | [ "deserbad"; h ] ->
+           apply (M.Write (nat h, fun old -> List.mapi (fun j x -> if j = 0 then czi 0x44332211 else if j = 1 then cz_of_zz (Z.logor (Z.logand (zz_of_cz x) (Z.of_int 0xFFFF0000)) (Z.of_int 0x6655)) else x) old))
        | [ "destroy"; h ] -> apply (M.Destroy (nat h))
        | _ -> Buffer.add_string mb " badop");
       ignore pn; snapshot ()) ops;
@@ -390,7 +393,7 @@ let rb_case toks =
   let seqn = ref 0 in
   let nextbyte () = let b = (!seqn * 7 + 3) land 255 in incr seqn; nat_of_int b in
   let ev_of s =
-    if s = "OF" then M.OpenFail else if s = "OK" then M.OpenOk else if s = "RE" then M.ReadErr else if s = "RZ" then M.ReadZero
+    if s = "OF" then M.OpenFail else if s = "OK" || s = "OK0" then M.OpenOk else if s = "RE" then M.ReadErr else if s = "RZ" then M.ReadZero
     else let c = int_of_string (String.sub s 2 (String.length s - 2)) in M.ReadData (List.init c (fun _ -> nextbyte ())) in
   (* bytes are numbered in delivery order, which is script order for the ReadData events *)
   let evl = List.map ev_of evs in
